@@ -1,6 +1,604 @@
-//! C24 — not implemented yet.
+//! C24 — Set operations have SQL multiset semantics.
+//!
+//! Generator (own, focused): 2–3 tables `r, s, u` with the SAME 1–3 column
+//! types (BIGINT / INTEGER / DOUBLE / VARCHAR / DATE / BOOLEAN), whose rows are
+//! drawn *with repetition* from one small pool of 1–4 rows (NULL density per
+//! column 0/30/60 %) plus a few free rows — so identical rows (also rows that
+//! contain NULLs) occur on both sides of an operator with different
+//! multiplicities by construction. Statements: 2–4 SELECT leaves (optionally
+//! DISTINCT, optionally filtered, columns permuted within a type, the odd
+//! literal / typed NULL) combined by UNION / INTERSECT / EXCEPT × {DISTINCT, ALL}
+//! into an arbitrary binary tree, rendered fully parenthesised; optionally the
+//! whole set expression sits in a derived table under a column-subset
+//! projection / filter / COUNT(*) (column pruning and predicate push-down
+//! through set operators must not change the answer).
+//! A second check renders 3–4 leaves as an UNPARENTHESISED chain and gives the
+//! reference the tree the standard prescribes (INTERSECT binds tighter than
+//! UNION / EXCEPT, which associate to the left).
+//!
+//! Oracle: `refsql` multiset algebra, NULLs not distinct (cross-checked against
+//! SQLite). An engine error is an allowed outcome.
+//!
+//! Known findings are classified by *data-dependent* signatures computed from
+//! the reference's view of every operator node (see `facts`).
 use super::Property;
+use crate::data::*;
+use crate::refsql::{rows_not_distinct, Db};
+use crate::runner::*;
+use crate::sqlast::*;
+use crate::sqlgen::*;
+use proptest::prelude::*;
+
+#[path = "c24_util.rs"]
+mod util;
+use util::*;
+
+// ---------------------------------------------------------------------------
+// data
+// ---------------------------------------------------------------------------
+
+fn tiny_value(ty: ColType, null_pct: u32) -> BoxedStrategy<Value> {
+    let nn: BoxedStrategy<Value> = match ty {
+        ColType::Int | ColType::Int32 => (0i64..3).prop_map(Value::Int).boxed(),
+        ColType::Double => prop_oneof![Just(0.0f64), Just(0.25), Just(-1.5)].prop_map(Value::Double).boxed(),
+        ColType::Str => prop_oneof![Just(""), Just("a"), Just("b")].prop_map(|s| Value::Str(s.to_string())).boxed(),
+        ColType::Date => (0i32..2).prop_map(|d| Value::Date(10957 + d * 15)).boxed(),
+        ColType::Bool => any::<bool>().prop_map(Value::Bool).boxed(),
+    };
+    if null_pct == 0 {
+        nn
+    } else {
+        prop_oneof![null_pct => Just(Value::Null), (100 - null_pct) => nn].boxed()
+    }
+}
+
+// BOOLEAN is rare: the engine rejects it as a de-duplication key (an error, which is allowed)
+const TYPES: [ColType; 11] = [ColType::Int, ColType::Int, ColType::Int32, ColType::Str, ColType::Date, ColType::Bool, ColType::Double, ColType::Int, ColType::Str, ColType::Int32, ColType::Date];
+
+/// 2–3 tables with identical column types; rows drawn with repetition from a
+/// shared pool, plus free rows.
+fn tables(max_rows: usize) -> BoxedStrategy<Vec<Table>> {
+    // 45 % of the cases carry no NULL at all (the search continues behind the
+    // open NULL-row finding of INTERSECT / EXCEPT)
+    (proptest::collection::vec((proptest::sample::select(TYPES.to_vec()), proptest::sample::select(vec![0u32, 30, 60])), 1..=3), 0u32..100)
+        .prop_map(|(spec, k)| if k < 45 { spec.into_iter().map(|(t, _)| (t, 0u32)).collect::<Vec<_>>() } else { spec })
+        .prop_flat_map(move |spec| {
+            let row: Vec<BoxedStrategy<Value>> = spec.iter().map(|(t, p)| tiny_value(*t, *p)).collect();
+            let pool = proptest::collection::vec(row.clone(), 1..=4);
+            // per table: selectors into the pool and a few free rows
+            let per_table = (proptest::collection::vec(any::<u16>(), 0..=max_rows), proptest::collection::vec(row, 0..=2));
+            (Just(spec), pool, proptest::collection::vec(per_table, 2..=3))
+        })
+        .prop_map(|(spec, pool, per)| {
+            let names = ["r", "s", "u"];
+            per.into_iter()
+                .enumerate()
+                .map(|(i, (sels, free))| {
+                    let mut rows: Rows = sels.iter().map(|s| pool[pick_idx(*s, pool.len())].clone()).collect();
+                    // free rows are interleaved deterministically
+                    for (k, fr) in free.into_iter().enumerate() {
+                        let at = if rows.is_empty() { 0 } else { (k * 3 + 1).min(rows.len()) };
+                        rows.insert(at, fr);
+                    }
+                    Table {
+                        name: names[i].to_string(),
+                        cols: spec.iter().enumerate().map(|(j, (t, _))| Column { name: ["a", "b", "c"][j].to_string(), ty: *t }).collect(),
+                        rows,
+                    }
+                })
+                .collect()
+        })
+        .boxed()
+}
+
+// ---------------------------------------------------------------------------
+// statements
+// ---------------------------------------------------------------------------
+
+fn lit(t: &mut Tape, ty: ColType) -> Expr {
+    Expr::Lit(match ty {
+        ColType::Int | ColType::Int32 => Value::Int(t.pick(3) as i64),
+        ColType::Double => Value::Double([0.0, 0.25, -1.5][t.pick(3)]),
+        ColType::Str => Value::Str(["a", "", "b"][t.pick(3)].to_string()),
+        ColType::Date => Value::Date(10957 + t.pick(2) as i32 * 15),
+        ColType::Bool => Value::Bool(t.pick(2) == 1),
+    })
+}
+
+fn op_feature(op: SetOp, all: bool) -> &'static str {
+    match (op, all) {
+        (SetOp::Union, false) => "union",
+        (SetOp::Union, true) => "union_all",
+        (SetOp::Intersect, false) => "intersect",
+        (SetOp::Intersect, true) => "intersect_all",
+        (SetOp::Except, false) => "except",
+        (SetOp::Except, true) => "except_all",
+    }
+}
+
+struct G<'a> {
+    t: Tape,
+    tables: &'a [Table],
+    feats: Vec<&'static str>,
+    /// 0 = same alias per position, 1 = no aliases, 2 = fresh aliases per leaf
+    alias_style: usize,
+    leaf_no: usize,
+}
+
+impl<'a> G<'a> {
+    fn feat(&mut self, f: &'static str) {
+        if !self.feats.contains(&f) {
+            self.feats.push(f);
+        }
+    }
+
+    fn leaf(&mut self) -> SetExpr {
+        self.leaf_no += 1;
+        let ti = self.t.pick(self.tables.len());
+        let tb = &self.tables[ti];
+        let alias = format!("t{}", self.leaf_no);
+        let mut items = vec![];
+        for (j, col) in tb.cols.iter().enumerate() {
+            let k = self.t.pick(25);
+            let e = if k >= 24 {
+                self.feat("leaf_typed_null");
+                Expr::Cast(Box::new(Expr::Lit(Value::Null)), col.ty)
+            } else if k >= 22 {
+                self.feat("leaf_literal");
+                lit(&mut self.t, col.ty)
+            } else if k >= 19 {
+                // another column of the same type (or the same one)
+                let same: Vec<usize> = (0..tb.cols.len()).filter(|&x| tb.cols[x].ty == col.ty).collect();
+                let x = same[self.t.pick(same.len())];
+                if x != j {
+                    self.feat("leaf_permuted");
+                }
+                Expr::qcol(&alias, &tb.cols[x].name)
+            } else {
+                Expr::qcol(&alias, &col.name)
+            };
+            let a = match self.alias_style {
+                0 => Some(format!("x{}", j + 1)),
+                1 => None,
+                _ => Some(if self.leaf_no == 1 { format!("x{}", j + 1) } else { format!("y{}_{}", self.leaf_no, j + 1) }),
+            };
+            items.push(Item::Expr(e, a));
+        }
+        let where_ = if self.t.chance(25) {
+            self.feat("leaf_where");
+            let j = self.t.pick(tb.cols.len());
+            let c = Expr::qcol(&alias, &tb.cols[j].name);
+            Some(match self.t.pick(4) {
+                0 => Expr::IsNull { e: Box::new(c), neg: true },
+                1 => Expr::IsNull { e: Box::new(c), neg: false },
+                2 if tb.cols[j].ty != ColType::Bool => Expr::bin(c, BinOp::Ne, lit(&mut self.t, tb.cols[j].ty)),
+                _ => Expr::eq(c, lit(&mut self.t, tb.cols[j].ty)),
+            })
+        } else {
+            None
+        };
+        let distinct = self.t.chance(12);
+        if distinct {
+            self.feat("leaf_distinct");
+        }
+        SetExpr::Select(Box::new(Select {
+            distinct,
+            items,
+            from: vec![From::Table { name: tb.name.clone(), alias: Some(alias) }],
+            where_,
+            group: Group::None,
+            having: None,
+        }))
+    }
+
+    fn pick_op(&mut self) -> (SetOp, bool) {
+        let op = [SetOp::Intersect, SetOp::Except, SetOp::Union][self.t.pick(3)];
+        let all = self.t.chance(50);
+        self.feat(op_feature(op, all));
+        (op, all)
+    }
+
+    /// arbitrary binary tree over `n` leaves
+    fn tree(&mut self, n: usize, depth: usize) -> SetExpr {
+        if n == 1 {
+            return self.leaf();
+        }
+        let left_n = 1 + self.t.pick(n - 1);
+        let (op, all) = self.pick_op();
+        if depth > 0 {
+            self.feat("nested_setop");
+        }
+        if left_n > 1 {
+            self.feat("setop_as_left_input");
+        }
+        if n - left_n > 1 {
+            self.feat("setop_as_right_input");
+        }
+        let l = self.tree(left_n, depth + 1);
+        let r = self.tree(n - left_n, depth + 1);
+        SetExpr::Op { op, all, l: Box::new(l), r: Box::new(r) }
+    }
+}
+
+/// The tree the standard assigns to `leaves[0] ops[0] leaves[1] ops[1] …`:
+/// INTERSECT binds tighter; UNION and EXCEPT associate to the left.
+fn precedence_tree(leaves: Vec<SetExpr>, ops: &[(SetOp, bool)]) -> SetExpr {
+    // first fold runs of INTERSECT
+    let mut terms: Vec<SetExpr> = vec![];
+    let mut low_ops: Vec<(SetOp, bool)> = vec![];
+    let mut it = leaves.into_iter();
+    let mut cur = it.next().unwrap();
+    for (k, leaf) in it.enumerate() {
+        let (op, all) = ops[k];
+        if op == SetOp::Intersect {
+            cur = SetExpr::Op { op, all, l: Box::new(cur), r: Box::new(leaf) };
+        } else {
+            terms.push(cur);
+            low_ops.push((op, all));
+            cur = leaf;
+        }
+    }
+    terms.push(cur);
+    let mut it = terms.into_iter();
+    let mut acc = it.next().unwrap();
+    for (k, term) in it.enumerate() {
+        let (op, all) = low_ops[k];
+        acc = SetExpr::Op { op, all, l: Box::new(acc), r: Box::new(term) };
+    }
+    acc
+}
+
+/// In-order (leaves, operators) of a set-expression tree.
+fn flatten(s: &SetExpr, leaves: &mut Vec<SetExpr>, ops: &mut Vec<(SetOp, bool)>) {
+    match s {
+        SetExpr::Op { op, all, l, r } => {
+            flatten(l, leaves, ops);
+            ops.push((*op, *all));
+            flatten(r, leaves, ops);
+        }
+        other => leaves.push(other.clone()),
+    }
+}
+
+/// Unparenthesised rendering; None when the stored tree is not the one the
+/// precedence rules give to that text.
+fn flat_sql(q: &Query) -> Option<String> {
+    let (mut leaves, mut ops) = (vec![], vec![]);
+    flatten(&q.body, &mut leaves, &mut ops);
+    if precedence_tree(leaves.clone(), &ops) != q.body || !q.with.is_empty() || !q.order_by.is_empty() {
+        return None;
+    }
+    let mut s = leaves[0].sql();
+    for (k, (op, all)) in ops.iter().enumerate() {
+        s.push_str(match op {
+            SetOp::Union => " UNION ",
+            SetOp::Intersect => " INTERSECT ",
+            SetOp::Except => " EXCEPT ",
+        });
+        if *all {
+            s.push_str("ALL ");
+        }
+        s.push_str(&leaves[k + 1].sql());
+    }
+    Some(s)
+}
+
+fn build_tree_case(tables: Vec<Table>, tape: Vec<u16>, cuts: Vec<Vec<usize>>, max_leaves: usize) -> SqlCase {
+    let mut g = G { t: Tape::new(tape), tables: &tables, feats: vec![], alias_style: 0, leaf_no: 0 };
+    let wrap = match g.t.pick(10) {
+        0..=5 => 0,
+        6 => 1,
+        7 => 2,
+        8 => 3,
+        _ => 4,
+    };
+    g.alias_style = if wrap != 0 { 0 } else { g.t.pick(3) };
+    g.feat(["alias_same", "alias_none", "alias_fresh"][g.alias_style]);
+    let n = 2 + g.t.pick(max_leaves - 1);
+    g.feat(["", "", "leaves2", "leaves3", "leaves4", "leaves5"][n.min(5)]);
+    let body = g.tree(n, 0);
+    let k = tables[0].cols.len();
+    let inner = Query::of(body);
+    let derived = |q: Query| From::Derived { q: Box::new(q), alias: "d".into(), cols: None };
+    let query = match wrap {
+        0 => inner,
+        1 => {
+            // column subset (pruning through the set operator would be wrong)
+            g.feat("wrap_project_subset");
+            let keep = g.t.pick(k);
+            Query::select(Select::simple(vec![Item::Expr(Expr::qcol("d", &format!("x{}", keep + 1)), Some("o1".into()))], vec![derived(inner)], None))
+        }
+        2 => {
+            g.feat("wrap_filter");
+            let j = g.t.pick(k);
+            let c = Expr::qcol("d", &format!("x{}", j + 1));
+            let ty = tables[0].cols[j].ty;
+            let w = match g.t.pick(3) {
+                0 => Expr::IsNull { e: Box::new(c), neg: false },
+                1 => Expr::IsNull { e: Box::new(c), neg: true },
+                _ => Expr::eq(c, lit(&mut g.t, ty)),
+            };
+            Query::select(Select::simple(vec![Item::Star], vec![derived(inner)], Some(w)))
+        }
+        3 => {
+            g.feat("wrap_count");
+            Query::select(Select::simple(vec![Item::Expr(Expr::count_star(), Some("n".into()))], vec![derived(inner)], None))
+        }
+        _ => {
+            g.feat("wrap_distinct");
+            let keep = g.t.pick(k);
+            let mut s = Select::simple(vec![Item::Expr(Expr::qcol("d", &format!("x{}", keep + 1)), Some("o1".into()))], vec![derived(inner)], None);
+            s.distinct = true;
+            Query::select(s)
+        }
+    };
+    let features = g.feats.iter().map(|s| s.to_string()).collect();
+    SqlCase { cuts: cuts.into_iter().take(tables.len()).collect(), tables, query, features }
+}
+
+fn build_flat_case(tables: Vec<Table>, tape: Vec<u16>, cuts: Vec<Vec<usize>>, max_leaves: usize) -> SqlCase {
+    let mut g = G { t: Tape::new(tape), tables: &tables, feats: vec!["flat_chain"], alias_style: 0, leaf_no: 0 };
+    g.alias_style = g.t.pick(3);
+    let n = 3 + g.t.pick(max_leaves - 2);
+    let leaves: Vec<SetExpr> = (0..n).map(|_| g.leaf()).collect();
+    let mut ops = vec![];
+    for k in 0..n - 1 {
+        // make a later INTERSECT likely: that is where precedence shows
+        let op = if k > 0 && g.t.chance(45) { SetOp::Intersect } else { [SetOp::Union, SetOp::Except, SetOp::Intersect][g.t.pick(3)] };
+        let all = g.t.chance(50);
+        g.feat(op_feature(op, all));
+        ops.push((op, all));
+    }
+    if ops.iter().skip(1).any(|(o, _)| *o == SetOp::Intersect) && ops.iter().any(|(o, _)| *o != SetOp::Intersect) {
+        g.feat("precedence_matters_syntactically");
+    }
+    let body = precedence_tree(leaves, &ops);
+    let features = g.feats.iter().map(|s| s.to_string()).collect();
+    SqlCase { cuts: cuts.into_iter().take(tables.len()).collect(), tables, query: Query::of(body), features }
+}
+
+fn strategy(tier: Tier, flat: bool) -> BoxedStrategy<SqlCase> {
+    let max_rows = tier.pick(7usize, 24);
+    let max_leaves = tier.pick(3usize, 5);
+    (
+        tables(max_rows),
+        proptest::collection::vec(any::<u16>(), 0..90),
+        proptest::collection::vec(proptest::collection::vec(0..=max_rows, 0..3), 3),
+    )
+        .prop_map(move |(tables, tape, cuts)| if flat { build_flat_case(tables, tape, cuts, max_leaves.max(4)) } else { build_tree_case(tables, tape, cuts, max_leaves) })
+        .boxed()
+}
+
+// ---------------------------------------------------------------------------
+// facts about the operator nodes, as the reference sees them
+// ---------------------------------------------------------------------------
+
+#[derive(Default, Debug, Clone)]
+pub struct Facts {
+    /// some operator has a common row that contains a NULL or is repeated on a side
+    pub nontrivial: bool,
+    /// INTERSECT / EXCEPT (any quantifier) node: a NULL-containing row of the left
+    /// input is not distinct from a row of the right input
+    pub null_row_matched: bool,
+    /// INTERSECT ALL / EXCEPT ALL node: some row occurs l times left, r times
+    /// right with l > r >= 1
+    pub all_left_exceeds_right: bool,
+    /// UNION (distinct) node whose combined input repeats a NULL-containing row
+    pub union_null_dup: bool,
+    pub precedence_matters: bool,
+}
+
+fn count(rows: &Rows, r: &[Value]) -> usize {
+    rows.iter().filter(|x| rows_not_distinct(x, r)).count()
+}
+
+fn visit_ops(c: &SqlCase, s: &SetExpr, f: &mut Facts) {
+    if let SetExpr::Op { op, all, l, r } = s {
+        visit_ops(c, l, f);
+        visit_ops(c, r, f);
+        let run = |x: &SetExpr| Db::new(&c.tables).run(&Query::of(x.clone())).map(|a| a.rows);
+        if let (Ok(a), Ok(b)) = (run(l), run(r)) {
+            for row in &a {
+                let (ca, cb) = (count(&a, row), count(&b, row));
+                let has_null = row.iter().any(|v| v.is_null());
+                if cb >= 1 && (has_null || (ca >= 2 && cb >= 2)) {
+                    f.nontrivial = true;
+                }
+                if *op != SetOp::Union && has_null && cb >= 1 {
+                    f.null_row_matched = true;
+                }
+                if *op != SetOp::Union && *all && cb >= 1 && ca > cb {
+                    f.all_left_exceeds_right = true;
+                }
+                if *op == SetOp::Union && !*all && has_null && ca + cb >= 2 {
+                    f.union_null_dup = true;
+                }
+            }
+            for row in &b {
+                if *op == SetOp::Union && !*all && row.iter().any(|v| v.is_null()) && count(&b, row) >= 2 {
+                    f.union_null_dup = true;
+                }
+            }
+        }
+    }
+}
+
+fn find_setexprs<'a>(q: &'a Query, out: &mut Vec<&'a SetExpr>) {
+    fn in_from<'a>(fr: &'a From, out: &mut Vec<&'a SetExpr>) {
+        match fr {
+            From::Derived { q, .. } => find_setexprs(q, out),
+            From::Join { l, r, .. } => {
+                in_from(l, out);
+                in_from(r, out);
+            }
+            From::Table { .. } => {}
+        }
+    }
+    match &q.body {
+        SetExpr::Select(s) => {
+            for fr in &s.from {
+                in_from(fr, out);
+            }
+        }
+        other => out.push(other),
+    }
+}
+
+pub fn facts(c: &SqlCase) -> Facts {
+    let mut f = Facts::default();
+    let mut roots = vec![];
+    find_setexprs(&c.query, &mut roots);
+    for r in roots {
+        visit_ops(c, r, &mut f);
+        // does the left-to-right, equal-precedence reading give another answer?
+        let (mut leaves, mut ops) = (vec![], vec![]);
+        flatten(r, &mut leaves, &mut ops);
+        if leaves.len() >= 3 {
+            let mut it = leaves.into_iter();
+            let mut acc = it.next().unwrap();
+            for (k, leaf) in it.enumerate() {
+                acc = SetExpr::Op { op: ops[k].0, all: ops[k].1, l: Box::new(acc), r: Box::new(leaf) };
+            }
+            let a = Db::new(&c.tables).run(&Query::of(acc)).map(|a| a.rows);
+            let b = Db::new(&c.tables).run(&Query::of(r.clone())).map(|a| a.rows);
+            if let (Ok(a), Ok(b)) = (a, b) {
+                if !multiset_eq(&a, &b, 0.0) {
+                    f.precedence_matters = true;
+                }
+            }
+        }
+    }
+    f
+}
+
+// ---------------------------------------------------------------------------
+// known-finding signatures (narrower than kf_sql's statement-shape ones)
+// ---------------------------------------------------------------------------
+
+/// Some SELECT that feeds a set operation (or is DISTINCT) outputs two columns
+/// under the same name.
+fn duplicate_output_name(c: &SqlCase) -> bool {
+    fn names(s: &Select) -> Vec<String> {
+        s.items
+            .iter()
+            .filter_map(|i| match i {
+                Item::Expr(_, Some(a)) => Some(a.to_lowercase()),
+                Item::Expr(Expr::Col { name, .. }, None) => Some(name.to_lowercase()),
+                // an unaliased expression is named after its text; the engine prints
+                // the DOUBLE literal 0.0 and the BIGINT literal 0 alike ("0")
+                Item::Expr(Expr::Lit(Value::Double(d)), None) if d.fract() == 0.0 => Some(format!("{}", *d as i64)),
+                Item::Expr(e, None) => Some(e.sql().to_lowercase()),
+                _ => None,
+            })
+            .collect()
+    }
+    fn leaf_dup(s: &SetExpr) -> bool {
+        match s {
+            SetExpr::Select(sel) => {
+                let n = names(sel);
+                (0..n.len()).any(|i| n[i + 1..].contains(&n[i]))
+            }
+            SetExpr::Op { l, r, .. } => leaf_dup(l) || leaf_dup(r),
+            _ => false,
+        }
+    }
+    let mut roots = vec![];
+    find_setexprs(&c.query, &mut roots);
+    roots.iter().any(|r| leaf_dup(r))
+}
+
+fn classify(c: &SqlCase, ev: &Ev, msg: &str) -> Option<&'static str> {
+    if duplicate_output_name(c) {
+        return Some("setop-duplicate-output-name");
+    }
+    let f = facts(c);
+    if f.null_row_matched {
+        return Some("setop-null-row");
+    }
+    if f.all_left_exceeds_right {
+        return Some("setop-all-multiplicity");
+    }
+    // everything else this generator can reach through the shared signatures,
+    // except the two coarse set-operation ones refined above
+    let _ = msg;
+    crate::kf_sql::SIGS.iter().filter(|s| s.id != "setop-null-row" && s.id != "setop-all-multiplicity").find(|s| (s.pred)(c, ev)).map(|s| s.id)
+}
+
+// ---------------------------------------------------------------------------
+// checks
+// ---------------------------------------------------------------------------
+
+struct SetOpCheck {
+    name: &'static str,
+    flat: bool,
+    quick: u32,
+    thorough: u32,
+}
+
+impl Check for SetOpCheck {
+    type Case = SqlCase;
+    fn name(&self) -> &'static str {
+        self.name
+    }
+    fn rule(&self) -> &'static str {
+        if self.flat {
+            "the engine answered, and reading the unparenthesised chain left-to-right with equal precedence gives a different reference answer than the standard tree (INTERSECT first), or some operator has a common row that contains a NULL or is repeated on both sides"
+        } else {
+            "the engine answered and, for some operator node, a row occurs on both sides that contains a NULL or has multiplicity >= 2 on both sides"
+        }
+    }
+    fn cases(&self, tier: Tier) -> u32 {
+        tier.pick(self.quick, self.thorough)
+    }
+    fn max_shrink_iters(&self) -> u32 {
+        1500
+    }
+    fn strategy(&self, tier: Tier) -> BoxedStrategy<SqlCase> {
+        strategy(tier, self.flat)
+    }
+    fn test(&self, c: &SqlCase, obs: &mut Obs) -> Verdict {
+        let sql = if self.flat {
+            match flat_sql(&c.query) {
+                Some(s) => s,
+                None => return Verdict::Discard("stored tree is not the precedence tree of its flat text".into()),
+            }
+        } else {
+            c.query.sql()
+        };
+        let out = judge_text(c, &sql, obs, 0.0, &classify);
+        for e in &out.events {
+            obs.label(format!("ev:{}", e));
+        }
+        let f = facts(c);
+        if f.null_row_matched {
+            obs.label("fact:null_row_matched");
+        }
+        if f.all_left_exceeds_right {
+            obs.label("fact:all_left_exceeds_right");
+        }
+        if f.union_null_dup {
+            obs.label("fact:union_null_dup");
+        }
+        if f.precedence_matters {
+            obs.label("fact:precedence_matters");
+        }
+        obs.nontrivial(out.got.is_some() && (f.nontrivial || (self.flat && f.precedence_matters)));
+        out.verdict
+    }
+}
 
 pub fn property() -> Property {
-    Property { id: "C24", level: "exploration", assumptions: &[], checks: vec![] }
+    Property {
+        id: "C24",
+        level: "exploration",
+        assumptions: &[
+            "the reference evaluator refsql implements the standard's multiset algebra for UNION/INTERSECT/EXCEPT [ALL] with NULLs not distinct (cross-checked against SQLite)",
+            "an unparenthesised chain is read with INTERSECT binding tighter than UNION/EXCEPT, which associate to the left (SQL standard; the engine's parser, sqlparser, documents the same)",
+            "an engine error is an allowed outcome (the property only forbids wrong result multisets)",
+        ],
+        checks: vec![
+            Box::new(SetOpCheck { name: "setop_tree", flat: false, quick: 4000, thorough: 120_000 }),
+            Box::new(SetOpCheck { name: "setop_flat_chain", flat: true, quick: 1500, thorough: 45_000 }),
+        ],
+    }
 }
